@@ -36,6 +36,31 @@ CHECKS = {
                 text="one inductive step: rows and faults are independent of every scalar member / uninitialised local pre-state and the invariant is restored, for all events within the bound - hence for event sequences of any length and order",
                 note="reference-free; user C++ assumed pure; counterexamples replayed on [E,E0,E,E]",
                 ref="DESIGN.md 3/C05"),
+    "C06": dict(engine=TV, cat="translation_validation", also=(CH,),
+                technique="SMT translation validation with a symbolic event store (z3) + CrossHair on process_metadata / the whole pipeline with a symbolic bank string",
+                text="requests = collections the query names with the backend idiom; rows equal; absent collection never dereferenced and fails loudly; bank literal denotes the symbolic bank string on all three backends; malformed declarations/calls rejected; other-backend declarations refused",
+                note="frozen collection table is the oracle; bank strings <=1 char quick / <=2 thorough; N=2/3",
+                ref="DESIGN.md 3/C06"),
+    "C10": dict(engine=CH, cat="other", also=(TV,),
+                technique="CrossHair bounded symbolic execution of parse_type / base_type_member_access / dereference_var / define_enum / process_metadata + SMT translation validation over the declaration space",
+                text="type parsing equals an independent reference for all printable strings <=4; member access indirection for all p,d<=3; registry round trip; every declaration of the enumerated space type-checks against model classes generated from the same declarations and computes the query's rows",
+                note="declaration space enumerated (pointer depth 0..2, deref_count 0..2, collection forms, chains<=3)",
+                ref="DESIGN.md 3/C10"),
+    "C15": dict(engine=CH, cat="other",
+                technique="CrossHair bounded symbolic execution of generate_script_block against an independent topological-order reference; real template render for the insertion point",
+                text="every block list of <=2 (quick) / <=3 (thorough) blocks over B names with dependency lists <=2 over B+1 names and two script variants: ValueError exactly on conflict/missing/cycle, otherwise once-each, contiguous, ordered output",
+                note="space partitioned into conditions with <=3 symbolic ints (the rest enumerated); CrossHair realises dict keys, so within the bound this is a solver-driven exhaustive exploration",
+                ref="DESIGN.md 3/C15"),
+    "C16": dict(engine=SH, cat="model_checking",
+                technique="forking symbolic execution of the runner.sh bash subset with z3 (symbolic flag operands, exit statuses, filesystem facts), validated against real bash with stub tools",
+                text="all flag vectors <=2 tokens (3-4 thorough) x all single-step failures x invocation histories <=2 (3 thorough) for the three scripts: exit codes, phases run, input/destination plumbing, no exit 0 after a failed step, no fresh output after a failure",
+                note="model = vlib/sh/shx.py; sampled symbolic paths and every violating path are replayed on real bash; absolute-path branches are model-only",
+                ref="DESIGN.md 3/C16"),
+    "C18": dict(engine=CH, cat="other", also=(STR, TV),
+                technique="CrossHair through the real translator with symbolic string constants per position + z3 obligations generated from the AST of visit_Constant (unbounded ints, float repr regex inclusion) + SMT translation validation of literal interplay",
+                text="strings of each exact length (0..1 quick, 0..2/3 thorough, all of Unicode) in every position denote themselves or are rejected; all integers accepted fit their C++ type; float literal class included in the C++ grammar; several equal-valued literals of different kind keep value and kind",
+                note="float value fidelity trusted; re.sub shim for CrossHair is part of the trusted base and self-checked",
+                ref="DESIGN.md 3/C18"),
     "C12": dict(engine=TV, cat="translation_validation",
                 technique="SMT equivalence (z3) of the emitted call against the documented function name: interpreted rounding/remainder family, distinct uninterpreted functions otherwise; exhaustive over the README table",
                 text="every documented function x {standalone, in arithmetic, in comparison, int argument}: accepted, <cmath> included, value equals the namesake for all argument values",
@@ -49,10 +74,10 @@ CHECKS = {
 }
 
 PENDING = {
-    "C06": "check under construction", "C07": "check under construction", "C08": "check under construction",
-    "C09": "check under construction", "C10": "check under construction", "C11": "check under construction",
-    "C14": "check under construction", "C15": "check under construction", "C16": "check under construction",
-    "C17": "check under construction", "C18": "check under construction",
+ "C07": "check under construction", "C08": "check under construction",
+    "C09": "check under construction", "C11": "check under construction",
+    "C14": "check under construction",
+    "C17": "check under construction",
 }
 
 ENGINES = {
